@@ -657,7 +657,11 @@ def normalise_case(case):
     kw = c.get("kw") or {}
     if not isinstance(kw, dict):
         kw = {}
-    return {"text": text, "mode": mode, "exts": list(exts), "backend": backend, "stage": stage, "kw": dict(kw)}
+    out = {"text": text, "mode": mode, "exts": list(exts), "backend": backend, "stage": stage, "kw": dict(kw)}
+    st = c.get("settings")
+    if isinstance(st, dict) and st:      # docutils settings of the run (raw_enabled, file_insertion_enabled ...)
+        out["settings"] = dict(st)
+    return out
 
 
 class HarnessError(Exception):
@@ -1383,7 +1387,7 @@ def produce(case):
     if case["backend"] == "docutils":
         f = L.docutils_parse if case["stage"] == "parse" else L.docutils_publish
         with _plain_docutils():
-            return f(text, mode, exts, **kw)
+            return f(text, mode, exts, extra=case.get("settings") or None, **kw)
     _pristine_registries()          # snapshot before the application exists
     drv = L.SphinxDriver.get()
     _install_docinfo_listener(drv)
@@ -1395,9 +1399,14 @@ def produce(case):
     saved_authors = conf.show_authors
     saved_roles = dict(_roles_mod._roles)      # `{role}` / `{default-role}` register process-wide: undo after the case
     conf.show_authors = True
+    env_settings = drv.app.env.settings
+    saved_settings = dict(env_settings)
+    env_settings.update(case.get("settings") or {})       # what `docutils_settings`-like overrides would pass
     try:
         return _produce_sphinx(drv, text, cfg, case["stage"])
     finally:
+        env_settings.clear()
+        env_settings.update(saved_settings)
         conf.show_authors = saved_authors
         _roles_mod._roles.clear()
         _roles_mod._roles.update(saved_roles)
@@ -2155,6 +2164,94 @@ def gen_case(rng, tier, i, structured=0.0):
             "tags": sorted(g.tags)}
 
 
+# ---- round 5: two focused generators (their own share of the budget, drawn after the main loop)
+
+NO_RAW = {"raw_enabled": False, "file_insertion_enabled": False}
+RAW_INLINE = ["<b>h</b>", "~~d~~", "a\\\nb", "<span id=\"a\">s</span>", "<!-- c -->", "<i>j</i> k", "{raw-html}`<b>x</b>`",
+              "*e* <br>", "[^1] <u>v</u>"]
+RAW_BLOCK = [["<div>h</div>"], ["<hr>"], ["```{raw} html", "<hr>", "```"], ["<!-- c -->"],
+             ["<div class=\"k\">", "<p>x</p>", "</div>"], ["```{include} " + INC_DIR + "/a.md", "```"],
+             ["```{raw} latex", "\\x", "```"], ["|a|b|", "|-|-|", "|<b>x</b>|<i>y</i>|"]]
+SETTINGS_CHOICES = [NO_RAW, NO_RAW, {"raw_enabled": False}, {"file_insertion_enabled": False}]
+
+
+def gen_raw_case(rng):
+    """Several raw-producing constructs, nested in containers, under raw_enabled / file_insertion_enabled off."""
+    blocks = []
+    for _ in range(rng.choice([2, 2, 3, 4, 6])):
+        if rng.random() < 0.5:
+            b = [" ".join(rng.choice(RAW_INLINE) for _ in range(rng.choice([1, 2, 3])))]
+        else:
+            b = list(rng.choice(RAW_BLOCK))
+        w = rng.randrange(8)
+        if w == 0:
+            b = [("> " + l) if l else ">" for l in b]
+        elif w == 1:
+            first = rng.choice(["- ", "1. "])
+            b = DocGen.indent(b, first, " " * len(first))
+        elif w == 2:
+            b = ["````{note}"] + b + ["````"]
+        elif w == 3:
+            b = DocGen.indent(b, "[^1]: ", "    ")
+        elif w == 4:
+            b = ["# h " + rng.choice(RAW_INLINE).replace("\n", " ")] + [""] + b
+        blocks.append("\n".join(b))
+    text = "```{role} raw-html(raw)\n:format: html\n```\n\n" if rng.random() < 0.3 else ""
+    text += "\n\n".join(blocks) + "\n"
+    return {"text": text, "mode": "myst" if rng.random() < 0.8 else rng.choice(["gfm", "commonmark"]),
+            "exts": list(ALL_EXTS), "backend": "docutils" if rng.random() < 0.8 else "sphinx", "stage": "parse",
+            "kw": {}, "settings": dict(rng.choice(SETTINGS_CHOICES))}
+
+
+ODD_IDS = ["Setup_Notes", "X_y", "a_b", "In_list", "plain", "A", "Q_r", "x-y", "T_1"]
+ODD_TARGETS = ["My Target", "t 2", "A.b", "x_y", "plain2"]
+ODD_HEADS = ["Setup Notes", "A.b c", "x y", "Top", "a", "First", "Second one", "Setup Notes"]
+
+
+def _slug(text):
+    return re.sub(r"[^\w\- ]", "", text.lower()).replace(" ", "-")
+
+
+def gen_anchor_case(rng):
+    """Headings (and other blocks) carrying ids whose name differs from the docutils id, heading anchors on, and
+    links by id name, by target name and by heading slug."""
+    blocks, refs = [], ["nope"]
+    for _ in range(rng.choice([1, 2, 3, 4])):
+        pre = []
+        k = rng.random()
+        if k < 0.6:
+            i = rng.choice(ODD_IDS)
+            pre = [rng.choice(["{{#{}}}", "{{#{} .k}}", "{{.k #{}}}"]).format(i)]
+            refs.append(i.lower())
+        elif k < 0.8:
+            t = rng.choice(ODD_TARGETS)
+            pre = [f"({t})=", ""] if rng.random() < 0.5 else [f"({t})="]
+            refs.append(t.lower().replace(" ", "%20"))
+        j = rng.random()
+        if j < 0.7:
+            h = rng.choice(ODD_HEADS)
+            b = pre + ["#" * rng.choice([1, 1, 2, 2, 3]) + " " + h]
+            refs += [_slug(h), _slug(h) + "-1"][:rng.choice([1, 1, 2])]
+            w = rng.randrange(8)
+            if w == 0:
+                b = ["> " + l for l in b]
+            elif w == 1:
+                b = DocGen.indent(b, "- ", "  ")
+        elif j < 0.85:
+            b = pre + ["> quote"]
+        else:
+            i = rng.choice(ODD_IDS)
+            refs.append(i.lower())
+            b = pre + [f"para [s]{{#{i}}}"]
+        blocks.append("\n".join(b))
+    rng.shuffle(refs)
+    links = " ".join(rng.choice(["[t](#{})", "[](#{})", "<project:#{}>"]).format(x) for x in refs)
+    blocks.insert(rng.randrange(len(blocks) + 1), links)
+    return {"text": "\n\n".join(blocks) + "\n", "mode": "myst", "exts": list(ALL_EXTS),
+            "backend": "sphinx" if rng.random() < 0.35 else "docutils", "stage": "parse",
+            "kw": {"heading_anchors": rng.choice([1, 2, 3, 3, 6])}}
+
+
 # ------------------------------------------------------------------------------------------------ witnesses
 
 def _w(text, backends=("docutils", "sphinx"), stages=("parse", "full"), mode="myst", exts=None, **kw):
@@ -2164,6 +2261,11 @@ def _w(text, backends=("docutils", "sphinx"), stages=("parse", "full"), mode="my
             out.append({"text": text, "mode": mode, "exts": list(ALL_EXTS if exts is None else exts),
                         "backend": b, "stage": s, "kw": dict(kw)})
     return out
+
+
+def _ws(text, settings_list=(NO_RAW, {"raw_enabled": False}, {"file_insertion_enabled": False}), **kw):
+    """Witnesses run under non-default docutils settings."""
+    return [dict(c, settings=dict(st)) for st in settings_list for c in _w(text, **kw)]
 
 
 FIXED_WITNESSES = (
@@ -2237,6 +2339,22 @@ FIXED_WITNESSES = (
     # an id on an anchor link that nothing resolves stays in the tree (ResolveAnchorIds moves ids/names to the
     # pending_xref's inner node, MystReferenceResolver keeps that node)
     + _w("[t](#nope){#k} [u](#k)\n")
+    # round 5: explicit ids on headings whose NAME is not the docutils id, with heading anchors on, linked by
+    # slug and by id (the slug table must hand ResolveAnchorIds an id that is in the tree)
+    + _w("{#Setup_Notes}\n# Setup Notes\n\n[by slug](#setup-notes) [by id](#setup_notes) [](#setup-notes) "
+         "<project:#setup-notes>\n", heading_anchors=1)
+    + _w("{#X_y}\n# First\n\n(My Target)=\n## Second one\n\n{#plain}\n## Third\n\n{#Q_r}\n> q\n\n"
+         "[a](#first) [b](#second-one) [c](#third) [d](#x_y) [e](#my%20target) [f](#plain) [g](#q_r) [h](#nope)\n",
+         heading_anchors=2)
+    + _w("- {#In_list}\n  # In a list\n\n> {#In_quote}\n> ## In a quote\n\n[a](#in-a-list) [b](#in-a-quote) "
+         "[c](#in_list) [d](#in_quote)\n", heading_anchors=3)
+    # round 5: the same well-formedness clauses with raw content / file insertion disabled (docutils settings):
+    # every raw node is replaced by a warning node - several raw-producing constructs per document
+    + _ws("<div>a</div>\n\n<div>b</div>\n")
+    + _ws("<div>a</div>\n\nx <b>inline</b> html and ~~s~~ a\\\nb\n\n> <hr>\n\n- <span>i</span> <i>j</i>\n")
+    + _ws("a\\\nb\\\nc\n\n~~x~~ ~~y~~\n")
+    + _ws("```{raw} html\n<hr>\n```\n\n<div>a</div>\n\n```{include} @C03INC@/a.md\n```\n")
+    + _ws("|a|\n|-|\n|<b>x</b> <i>y</i>|\n\n[^1]: <div>\n\n[^1] <b>z</b>\n")
 )
 
 
@@ -2555,7 +2673,7 @@ def _count_case(ctx, case):
 
 
 def _witness(case):
-    return {k: case[k] for k in ("text", "mode", "exts", "backend", "stage", "kw")}
+    return {k: case[k] for k in ("text", "mode", "exts", "backend", "stage", "kw", "settings") if k in case}
 
 
 class _Reporter:
@@ -2644,6 +2762,15 @@ def search(ctx):
         for stage in ("parse", "full"):
             ctx.count("c03:source:generated")
             rep.run(dict(base, stage=stage))
+    m = ctx.budget(30, 400, 400)
+    for i in range(m):
+        for kind, g in (("raw-disabled", gen_raw_case), ("odd-ids", gen_anchor_case)):
+            base = g(ctx.rng)
+            if i % max(1, m // 2) == 0:
+                ctx.sample(_witness(base))
+            for stage in ("parse", "full"):
+                ctx.count("c03:source:generated:" + kind)
+                rep.run(dict(base, stage=stage))
     return rep.per_sig
 
 
@@ -2651,7 +2778,7 @@ def replay(ctx, data):
     case = normalise_case(data.get("witness", data))
     fails = run_case(case)
     print(f"C03 replay: backend={case['backend']} stage={case['stage']} mode={case['mode']} "
-          f"exts={','.join(case['exts']) or '-'} kw={case['kw']}")
+          f"exts={','.join(case['exts']) or '-'} kw={case['kw']} settings={case.get('settings', {})}")
     print("input: " + repr(case["text"]))
     if not fails:
         print("property holds on this input")
@@ -2714,6 +2841,8 @@ def minimise(case, signature, max_runs=1500):
             case = c
     if case["mode"] != "commonmark" and bad(dict(case, mode="commonmark")):
         case = dict(case, mode="commonmark")
+    if case.get("settings") and bad({k: v for k, v in case.items() if k != "settings"}):
+        case = {k: v for k, v in case.items() if k != "settings"}
     return case
 
 
